@@ -5,10 +5,10 @@ import YowsupVerif.Lemmas.E2ETokFresh
 namespace Yow.E2E
 
 section
-variable {accts : List Acct} {groups : List (Nat × List Acct)}
+variable {ex : Bool} {accts : List Acct} {groups : List (Nat × List Acct)}
 
 theorem Src.ofNew {s : Sys} {a : Acct} {n : Node}
-    (hA : AInv accts groups (abs s)) (hT : TV accts groups s.submitted (view s)) (ha : a ∈ accts)
+    (hA : AInv accts groups (abs s)) (hT : TV ex accts groups s.submitted (view s)) (ha : a ∈ accts)
     (hf : ∀ p ∈ s.submitted, p.2.id ≠ n.id) :
     Src accts groups s.submitted ((view s).addSub (a, n)) a [] ((view s).outb a) (getClient s a) n none := by
   have hcg : ClientGood (view s).nextCtr (getClient s a) := hT.clients a
@@ -57,7 +57,7 @@ theorem Src.ofNew {s : Sys} {a : Acct} {n : Node}
     retq := hT.retq a }
 
 /-- the four counted quantities of a new submission after the sending client's step -/
-theorem new_pair {s : Sys} {a : Acct} {n : Node} (hA : AInv accts groups (abs s)) (hT : TV accts groups s.submitted (view s))
+theorem new_pair {s : Sys} {a : Acct} {n : Node} (hA : AInv accts groups (abs s)) (hT : TV ex accts groups s.submitted (view s))
     (hf : ∀ p ∈ s.submitted, p.2.id ≠ n.id) (c' : Client) (out : List Stanza) (k : Nat) {r : Acct} (hr : r ≠ a) :
     tokensV (((view s).addSub (a, n)).cstep a c' out k) a n.id r = contS n.id r c'.iqReg + sumMap (upTok n.id r) out ∧
     inTransitV (((view s).addSub (a, n)).cstep a c' out k) a n.id r = sumMap (upTok n.id r) out ∧
@@ -86,8 +86,8 @@ theorem new_pair {s : Sys} {a : Acct} {n : Node} (hA : AInv accts groups (abs s)
   exact z3
 
 theorem appSend_TInv (hw : WFConfig accts groups) {s : Sys} {a : Acct} {n : Node}
-    (h : TInv accts groups s) (hall : Allowed s (.appSend a n) = true) (hlen : s.submitted.length < 100) :
-    TInv accts groups (step s (.appSend a n)) := by
+    (h : TInv ex accts groups s) (hall : Allowed s (.appSend a n) = true) (hlen : s.submitted.length < 100) :
+    TInv ex accts groups (step s (.appSend a n)) := by
   obtain ⟨hA, hT⟩ := h
   have hA' := step_inv hA hall
   refine ⟨hA', ?_⟩
@@ -157,7 +157,7 @@ theorem appSend_TInv (hw : WFConfig accts groups) {s : Sys} {a : Acct} {n : Node
       (∀ r, rcptGot c' n.id r = 0) →
       (sumMap (upTok n.id 0) out = 0 ∧ (∀ r, sumMap (upTok n.id r) out = 0) ∨ n ∈ c'.sentQueue) →
       (∀ g, n.dest = .group g → (lookup c'.ownSK g).isSome = true ∨ ∃ e ∈ c'.iqReg, firstGroupCont e.2 n.id) →
-      TV accts groups (s.submitted ++ [(a, n)]) (((view s).addSub (a, n)).cstep a c' out k) := by
+      TV ex accts groups (s.submitted ++ [(a, n)]) (((view s).addSub (a, n)).cstep a c' out k) := by
     intro c' out k hss htok hrc hk3 hr3
     have h1 := TV.client_step hw.1 hTa (hss.toCStepOK hTa)
     rw [show ((view s).addSub (a, n)).popOut a ((view s).outb a) = (view s).addSub (a, n) from View.popOut_self _ _] at h1
@@ -226,7 +226,7 @@ theorem appSend_TInv (hw : WFConfig accts groups) {s : Sys} {a : Acct} {n : Node
     · next gen hsome =>
       obtain ⟨sk, l, kct, hview, hs1, hs2, hk1, hk2, hk3, hk4, hl, hlnd⟩ :=
         view_sgws_first { s with submitted := s.submitted ++ [(a, n)] } a (getClient s a) n g [] hacc1
-      show TV accts groups (s.submitted ++ [(a, n)]) (view (sendToGroupWithSessions _ a (getClient s a) n g [] 0))
+      show TV ex accts groups (s.submitted ++ [(a, n)]) (view (sendToGroupWithSessions _ a (getClient s a) n g [] 0))
       rw [hview, enqueueSent_eq (c := { getClient s a with ownSK := sk }) n hshort]
       have hfm := freshMsg_group (id := n.id) (g := g) (im := n.payload.isMedia) (lo := s.nextCtr) (len := 0)
         hk1 (by rw [hk2]; rfl) hk3 (by simpa using hk4) (by simpa using hl) hlnd
